@@ -3,14 +3,58 @@
 import json, os
 VERIF = os.path.dirname(os.path.dirname(os.path.abspath(__file__)))
 
+TB = "Trusted: Coq 8.16.1 kernel + vm_compute; the hand-written Gallina model (tied to /repo by this check's differential run against the implementation built with the `verif` feature, and by regenerating the constant tables from the Rust source); ExtrOcamlBasic extraction + driver.ml (cross-checked against vm_compute); the Rust harness and Python orchestration; Rust std, threadpool, the OS and sh are modelled, not verified."
+def C(text, technique, design, note=""):
+    return dict(text=text, note=(note + " " if note else "") + TB, technique=technique, design=design)
 CLAIMED = {
- "C15": dict(
-   text="Machine-checked theorems (Coq 8.16.1) about the Gallina model of Directive::detect_from / add_line state the documented grammar for every line; "
-        "the model is tied to /repo on every run by an exhaustive differential sweep (every line of <= 4 tokens quick / 5 thorough over a 22-token alphabet, every detected directive x continuation variants) "
-        "of the extracted model against the real functions through the `verif` re-exports, by a vm_compute cross-check of the extraction, and by regenerating the constant tables (TXTPP#, directive names, multi-line set) from the Rust source.",
-   note="Trusted: Coq kernel + vm_compute; the hand-written model (tie is the sweep, exhaustive only up to the stated token bound); ExtrOcamlBasic extraction + driver.ml; the Rust harness; char::is_whitespace / str::find / split_once modelled from std documentation and probes.",
-   technique="Coq proof (induction over byte strings) + exhaustive differential correspondence model vs code",
-   design="6 (C15)"),
+ "C01": C("Theorems: the line-loop machine of the model (current directive, tail line, pending-newline flag) equals the README-shaped specification parse -> one chunk per item -> splice for every line sequence, mode, pass and state (machine_refines_spec), and the text handed to the sink is the splice of the chunks. Tie: generated in-domain projects, implementation vs model byte for byte, plus the repository's golden fixtures.",
+          "Coq proof (fusion by induction over lines) + differential correspondence on generated projects", "6 (C01)",
+          "Partial: the per-directive meaning (exec_directive) is shared by machine and specification and tied to the code only by the correspondence."),
+ "C02": C("Theorems over every reachable state of the coordinator transition system (any in-flight task may complete next, any protocol-respecting result, any number of files): a final pass is in flight only when every reported dependency is finished, at most one task per file is in flight, finished is forever. Tie: every digraph on <=3 files (and every DAG on 4) x every input subset x every completion order through the scheduling hooks: trace, verdict and bytes against the model, outputs against a Python one-at-a-time build, stale outputs planted, snapshots taken by commands placed after the dependency directives.",
+          "Coq proof (inductive invariant of the coordinator) + exhaustive controlled-schedule correspondence", "6 (C02)",
+          "Partial: the theorem shows the ordering invariant (nothing to interleave); the byte-level equality with the sequential build is established by the exhaustive sweep, not yet as a theorem. Real interleavings of system calls inside overlapping workers are not modelled."),
+ "C03": C("Theorems: no task completes twice, done/total counters are exact, the number of tasks is bounded by 2*files+dirs, success implies every seen file finished, and txtpp_run terminates with fuel proportional to the number of .txtpp files and directories of the initial tree (txtpp_run_terminates), for every schedule. Tie: the exhaustive graph x schedule sweep with execution-count marker files, aliased and duplicate inputs.",
+          "Coq proof (invariant + termination measure) + exhaustive controlled-schedule correspondence", "6 (C03)",
+          "Partial: termination of the child processes themselves is outside the model."),
+ "C04": C("Theorems: a run that reports success delivered no failed task result and finished every seen file (every schedule, every position in the graph); verify accepts iff the bytes are equal. Tie: fault matrix (11 fault kinds x 4 positions x 4 graph shapes x schedules) through the library against the model, and the real binary under /dev/full, RLIMIT_FSIZE and read-only directories.",
+          "Coq proof (run-level simulation of the coordinator invariant) + fault-matrix correspondence", "6 (C04)",
+          "Partial: OS fault behaviour (ENOSPC at flush, EFBIG) and BufWriter are exercised on the real binary, not modelled."),
+ "C05": C("Theorems: at exit every seen file is finished or waiting; a file with no infinite dependency chain (Acc) is finished; the circular-dependency verdict is raised iff some seen file is unfinished, and such a file has an unfinished dependency (so it reaches a cycle). Tie: all digraphs with self-loops on <=3 files x inputs x schedules: verdict, termination, bytes of the acyclic part.",
+          "Coq proof (invariant, induction on Acc) + exhaustive controlled-schedule correspondence", "6 (C05)"),
+ "C06": C("Theorems: the streaming verifier accepts iff the concatenation of all chunks equals the existing file, for every chunking; a missing output is a mismatch; a verify pass logs no event on the output path and unlogged paths keep their bytes. Tie: build, tamper (flip/insert/delete/truncate/extend/empty/remove, option flip), verify: verdict and bytes+mtime+inode of every output.",
+          "Coq proof (induction over chunks; event-log frame) + history correspondence", "6 (C06)",
+          "Partial: the lifting 'verify verdict = Ok iff every output equals what build would write' through the coordinator is covered by the correspondence."),
+ "C07": C("Theorems: a clean pass only logs removals, never consults the command oracle (the result is independent of it), never waits for dependencies, touches only its own output and temp targets, and unlogged paths keep their bytes. Tie: build then clean on generated projects (erroneous directives included): tree restored exactly, no marker written, no .txtpp deleted.",
+          "Coq proof (event-log invariant, oracle independence) + build/clean history correspondence", "6 (C07)",
+          "Partial: build_then_clean_restores is established by the correspondence, not as a theorem."),
+ "C08": C("Theorems (sink level): build truncates then appends; the verdict and result of temp writes and of --needed do not depend on the old bytes at the generated path. Tie: every generated project rebuilt from pre-states with absent/exact/prefix/extended/empty/stale/non-UTF-8 content at each generated path, and rebuilt twice: verdict and whole tree must equal the build from the clean tree.",
+          "Coq proof (case analysis of the sinks) + pre-state history correspondence", "6 (C08)",
+          "Partial: whole-run hermeticity and crash repair are established by the pre-state sweep; SIGKILL histories are not part of the quick tier."),
+ "C09": C("Theorems (sink level): --needed buffers, writes nothing when the file is already the fresh text, brings a stale file to exactly the fresh text; a temp file with correct content is not rewritten in any mode. Tie: pre-states x {needed, build, verify}: needed = build byte for byte, inode+mtime of correct files unchanged, stale ones updated.",
+          "Coq proof (case analysis of the sinks) + inode/mtime history correspondence", "6 (C09)",
+          "Partial: needed_equiv_build for whole runs is established by the correspondence."),
+ "C10": C("Theorems: every event of a pass (any mode, any outcome) is on the output path or on the lexical normalisation of a temp target named in the source; OS resolution equals lexical normalisation; unlogged paths keep their bytes; the output is beside the source and differs from it. Tie: full-tree snapshots (bytes, inode, mtime) with decoys, four modes: the touched set equals the model's event log.",
+          "Coq proof (event-log invariant over the item list) + full-tree snapshot correspondence", "6 (C10)"),
+ "C11": C("Theorems: a name is a source iff its last or second-to-last extension is txtpp; the three documented shapes and dotted stems map to the documented output names; candidates of an output name map back; outputs are sources only for double-txtpp names. Tie: exhaustive name sweep through is_txtpp_file/remove_txtpp, random trees x input lists x recursion x base directory: which outputs exist, verdict.",
+          "Coq proof (case analysis on std::path extension semantics) + exhaustive name sweep and tree correspondence", "6 (C11)",
+          "Partial: processed_set_spec (closure under dependencies) is covered by inputs_are_processed / dependencies_are_processed of C03 and by the correspondence."),
+ "C12": C("Theorems (ingredients): lines are free of LF, and free of CR when CR occurs only before LF; tag content is re-joined with the file's ending (replace_line_ending_uniform). Tie: generated projects with independently mixed endings in first line, later lines, includes, command output, temp bodies, tag contents: byte-class scan of every generated file of the implementation.",
+          "Coq proof (induction over lines) + byte-class scan correspondence", "6 (C12)",
+          "Partial: the composite theorem output_le_uniform over whole files is not yet proved; the scan covers it."),
+ "C13": C("Theorems: the option is consulted only in the epilogue; with it on, the buffer handed to the sink is the buffer with it off plus the line ending iff the pending-newline flag is set; the text is splice(chunks). Tie: every generated source built with the option on and off: identical or on = off + line ending, temp files identical, sources ending in a text line.",
+          "Coq proof (epilogue case analysis, splice lemma) + on/off pair correspondence", "6 (C13)"),
+ "C14": C("Theorems: stored names are pairwise prefix-free in every reachable state; create fails exactly when documented; inject's result is invariant under permutation of the hash map (determinism); first occurrence replaced by normalised content then deleted; two tags left to right; overlapped occurrence left alone; never panics. Tie: exhaustive sweep (<=3 tags over prefix-related names x lines of <=5 symbols) with 8 fresh hash seeds per case, whole-file lifecycle cases.",
+          "Coq proof (permutation invariance of a stable sort with distinct keys) + exhaustive differential sweep", "6 (C14)"),
+ "C15": C("Theorems: detect_from = the documented grammar (iff), add_line = the documented continuation rule (iff), the white-space table is the 25 Unicode White_Space code points, the name table regenerated from the Rust source is the documented one. Tie: exhaustive sweep of all lines of <=4 tokens (22-token alphabet) and directive x continuation variants, vm_compute cross-check.",
+          "Coq proof (induction over byte strings) + exhaustive differential sweep", "6 (C15)"),
+ "C16": C("Theorems: a source without directive lines parses to its lines and is reproduced chunk for chunk; a text line without stored tags is itself; write output is the arguments, indented and joined, independent of the tag store. Tie: look-alike sources reproduced line for line, write round trips (with a stored tag around).",
+          "Coq proof (induction over lines) + identity/round-trip correspondence", "6 (C16)"),
+ "C17": C("Theorems: a run directive hands the shell one argument (lines joined by single spaces), runs in the parent directory of the source whatever the base, and TXTPP_FILE designates the source for every source that is not nested below the base; the nested case is refuted by a witness (known finding). Tie: sources at depth 0-3 x base x process cwd (with decoy directories): pwd -P, TXTPP_FILE, joined arguments, exit status; CLI guard and no recursion.",
+          "Coq proof (definitional unfolding; witness by vm_compute) + base/cwd matrix correspondence", "6 (C17)",
+          "Partial: process creation and the shell are modelled by the invocation record. Known finding txtpp_file_nested is listed in known_findings.txt."),
+ "C18": C("Theorems: one pass never panics whatever the bytes (slices at character boundaries, the assertion before tag injection, for all inputs); the dependency-counter unwrap never fails in any reachable state; a worker always sends a result; the whole run never panics and terminates within a fuel bound computed from the initial tree. Tie: robustness stream (random bytes, invalid UTF-8, NUL, lone CR, huge lines, cut multi-byte continuations) x modes x 0-16 threads with an any-thread panic hook and watchdog; CLI -j 0.",
+          "Coq proof (UTF-8 boundary lemmas, coordinator invariant, termination measure) + robustness stream", "6 (C18)",
+          "Partial: memory exhaustion, blocking special files and non-terminating children are outside any executable model."),
 }
 NOT_YET = {}
 ALL = ["C%02d" % i for i in range(1, 19)]
